@@ -99,7 +99,22 @@ def gen_case(rng):
     return {"op": "match", "kind": "missing", "ev": ev, "qs": ["_missing_:%s" % f, "_exists_:%s" % f]}
 
 
+def qlist(c):
+    """the queries of a case, in order (a dict in the JSON so that the generic shrinker keeps the law's arity)"""
+    qs = c["qs"]
+    return [qs[k] for k in sorted(qs)] if isinstance(qs, dict) else qs
+
+
+def freeze(c):
+    c["qs"] = {"q%d" % i: q for i, q in enumerate(c["qs"])}
+    return c
+
+
 def gen_cases(run, n):
+    return [freeze(c) for c in gen_cases0(run, n)]
+
+
+def gen_cases0(run, n):
     rng = run.rng
     cases = [gen_case(rng) for _ in range(n)]
     # a stream of queries over attributes whose path does not parse
